@@ -13,6 +13,7 @@ def expect_callsign(codes):
 
 class C07(PropBase):
     id = "C07"
+    shown_columns = ('W', 'CALLSIGN')
     corr_fields = ['ais', 'cat']
     lean_modules = ["SqModel.Props.C07", "SqModel.Proofs.Bridge", "SqModel.Proofs.BridgePlane"]
     extractors = ["trans"]
